@@ -1,5 +1,6 @@
 """C41 — the parallel map processes every item exactly once."""
 import collections
+import functools
 import queue as _queue
 import sys
 import threading
@@ -30,13 +31,16 @@ ASSUMPTIONS = [
     "exactly-once is claimed for calls whose worker function does not raise and exhausts its iterator and whose input iterable does not raise; calls that "
     "break this (iterable raising at any position — modelled: kill event, at-most-once —, worker function raising or stopping early — not modelled) occur "
     "in the histories only as predecessors of the calls that are checked",
-    "worker functions yield their results (generator style) or return None, as both call sites do",
+    "worker callables hand their results back as a generator (a generator function, or any callable returning one: partial, bound method, decorated wrapper, "
+    "lambda, object with __call__) or return None, as both call sites do",
 ]
 RULE = ("one process making call after call of the real map_async under sys.setswitchinterval(1e-6), about one call in twelve a failing one (input iterable raising "
         "at a random position, worker function raising, worker function returning early) followed by ordinary calls; regen_repository called through its "
         "public signature on fake repositories (0-400 packages, thorough up to 3000, 1-8 threads, sized and lazy package lists, helpers failing with "
         "MetadataException / OSError / ValueError, repositories with and without a regen helper); per call: 0-40 items (with duplicates), sized and unsized iterables, a few lazy generators stalling 0.3-0.6 s before the first item or between items, threads in "
-        "{None, -3 … 9}, worker functions that yield / sleep / spin at random points (generator style) or consume everything and return None; the recorded "
+        "{None, -3 … 9}, worker functions that yield / sleep / spin at random points (generator style) or consume everything and return None, handed over as the function itself, "
+        "a functools.partial, a bound method, a decorated wrapper (with and without functools.wraps), a forwarding lambda or an object with __call__; regen calls with instant, yielding and slow "
+        "(0.2-1 ms per package) helpers, some with 100-256 packages per thread plus a remainder so that a backlog of hundreds of packages is queued when feeding ends; the recorded "
         "put/get/finish trace is replayed through the Lean transition function; non-trivial = at least 2 workers each handled an item")
 
 
@@ -63,10 +67,12 @@ class _SizedRaiser:
 
 
 class _Pkg:
-    def __init__(self, i, outcome, seen, lock):
-        self.i, self.cpvstr, self.outcome, self._seen, self._lock = i, f"cat/pkg{i}-1", outcome, seen, lock
+    def __init__(self, i, outcome, seen, lock, nap=None):
+        self.i, self.cpvstr, self.outcome, self._seen, self._lock, self._nap = i, f"cat/pkg{i}-1", outcome, seen, lock, nap
 
     def regen(self):
+        if self._nap is not None:
+            time.sleep(self._nap)
         with self._lock:
             self._seen.append((self.i, threading.get_ident()))
         if self.outcome == "metadata":
@@ -93,10 +99,18 @@ def _regen_section(ctx, rng, rec, faults_so_far):
         k = rng.random()
         npk = rng.choice([0, 1, 2, 3, 7, 16, 31, 33, 64, 100, 129, 257]) if k < 0.5 else rng.randint(0, 400) if k < 0.95 or ctx.tier != "thorough" else rng.randint(400, 3000)
         threads = rng.choice([1, 1, 2, 2, 3, 4, 8])
+        # how long regenerating one package takes: the feeding loop is usually far ahead of slow workers, so a long backlog is queued when it ends
+        work = rng.choice(["instant", "instant", "yield", "slow", "slow"])
+        if ri in (1, 5, 9) or rng.random() < 0.15:
+            # a backlog of several hundred packages per worker
+            threads = rng.choice([1, 1, 2, 3])
+            npk = threads * rng.choice([100, 128, 150, 200, 256]) + rng.randint(1, 150)
+            work = "slow"
+        nap = {"instant": None, "yield": 0, "slow": rng.choice([0.0002, 0.0005, 0.001])}[work]
         sized = rng.random() < 0.7
         with_helper = rng.random() < 0.75
         seen, lock, factory_calls = [], threading.Lock(), []
-        pkgs = [_Pkg(i, rng.choice(["ok"] * 17 + ["metadata", "oserror", "valueerror"]), seen, lock) for i in range(npk)]
+        pkgs = [_Pkg(i, rng.choice(["ok"] * 17 + ["metadata", "oserror", "valueerror"]), seen, lock, nap) for i in range(npk)]
         if npk and rng.random() < 0.5:
             pkgs[-1].outcome = rng.choice(["oserror", "valueerror"])          # the last package fails: its error must come back too
 
@@ -111,7 +125,7 @@ def _regen_section(ctx, rng, rec, faults_so_far):
                 return lambda pkg: pkg.regen()
             repo._regen_operation_helper = _regen_operation_helper
         rec.log = []
-        case = {"regen_repository": {"packages": npk, "threads": threads, "sized": sized, "repo_has_helper": with_helper,
+        case = {"regen_repository": {"packages": npk, "threads": threads, "sized": sized, "repo_has_helper": with_helper, "seconds_per_package": nap,
                                      "failing": {p.cpvstr: p.outcome for p in pkgs if p.outcome != "ok"}},
                 "failing_calls_before": list(faults_so_far[-3:])}
         if ri in (3, 17) or rng.random() < 0.06:
@@ -146,6 +160,8 @@ def _regen_section(ctx, rng, rec, faults_so_far):
         ctx.case(case, workers >= 2, key=str(case))
         ctx.count("regen_pkgs_%s" % ("0" if npk == 0 else "1-15" if npk < 16 else "16-99" if npk < 100 else "100-399" if npk < 400 else "400+"))
         ctx.count("regen_threads_%d" % threads)
+        ctx.count("regen_work_" + work)
+        ctx.count("regen_pkgs_per_thread_%s" % ("le128" if npk <= 128 * threads else "gt128"))
         got = collections.Counter(i for i, _ in seen)
         want = collections.Counter(range(npk))
         if got != want:
@@ -181,8 +197,24 @@ def run(ctx):
             rec.log.append(("get", threading.get_ident(), None if item is klass.sentinel else item))
             return item
 
-    shim = types.SimpleNamespace(Queue=TraceQueue)
-    real_queue_mod = thread_pool.queue
+    class _Overlay:
+        """a module with a few names replaced, everything else (queue.Full, threading.Event, …) passed through"""
+
+        def __init__(self, mod, **over):
+            self.__dict__.update(over)
+            self._mod = mod
+
+        def __getattr__(self, name):
+            return getattr(self._mod, name)
+
+    class DaemonThread(threading.Thread):
+        # worker threads left blocked on the queue by a broken wind-down must not keep the check from ending
+        def __init__(self, *a, **k):
+            super().__init__(*a, **k)
+            self.daemon = True
+
+    real_queue_mod, real_threading_mod = thread_pool.queue, thread_pool.threading
+    shim = _Overlay(real_queue_mod, Queue=TraceQueue)
     old_switch = sys.getswitchinterval()
     cases, reqs = [], []
     faults_so_far = []
@@ -192,6 +224,7 @@ def run(ctx):
     n_lazy = ctx.n(4, 40)
     try:
         thread_pool.queue = shim
+        thread_pool.threading = _Overlay(real_threading_mod, Thread=DaemonThread)
         sys.setswitchinterval(1e-6)
         threading.excepthook = lambda args: None      # worker functions that raise on purpose: no traceback noise
         for ci in range(nruns):
@@ -281,20 +314,49 @@ def run(ctx):
                 rec.log.append(("raise", None, None))
                 raise _Boom("input iterable")
 
+            # the worker callable comes in every shape a caller may hand over: the function itself, a functools.partial, a bound method, a
+            # decorated function (wrapper with and without functools.wraps), a lambda forwarding the call, an object with __call__
+            base = functor_gen if style == "gen" else functor_none
+            shape = rng.choice(["function", "function", "function", "partial", "method", "wrapped", "decorated", "lambda", "callable_object"])
+            if shape == "function":
+                functor = base
+            elif shape == "partial":
+                functor = functools.partial(base)
+            elif shape == "wrapped":
+                @functools.wraps(base)
+                def functor(*a, **k):
+                    return base(*a, **k)
+            elif shape == "decorated":
+                def functor(*a, **k):
+                    return base(*a, **k)
+            elif shape == "lambda":
+                functor = lambda *a, **k: base(*a, **k)      # noqa: E731
+            elif style == "gen":
+                class _Holder:
+                    def work(self, it, tag):
+                        yield from base(it, tag)
+                    __call__ = work
+                functor = _Holder().work if shape == "method" else _Holder()
+            else:
+                class _Holder:
+                    def work(self, it, tag):
+                        return base(it, tag)
+                    __call__ = work
+                functor = _Holder().work if shape == "method" else _Holder()
             iterable = list(items) if sized else (lazy(list(items), stalls) if stalls else iter(list(items)))
             if fault == "iter_raises":
                 iterable = _SizedRaiser(items, fault_at, raising) if sized else raising(list(items), fault_at)
             kw = {} if threads is None and rng.random() < 0.5 else {"threads": threads}
             raised = None
             try:
-                res = thread_pool.map_async(iterable, functor_gen if style == "gen" else functor_none, "tag", **kw)
+                res = thread_pool.map_async(iterable, functor, "tag", **kw)
             except _Boom as e:
                 raised, res = str(e), ()
                 if fault != "iter_raises":
-                    ctx.violation({"items": items, "threads": threads, "sized": sized, "style": style, "fault": fault}, f"map_async raised {type(e).__name__}: {e}")
+                    ctx.violation({"items": items, "threads": threads, "sized": sized, "style": style, "worker_callable": shape, "fault": fault}, f"map_async raised {type(e).__name__}: {e}")
                     continue
             except Exception as e:
-                ctx.violation({"items": items, "threads": threads, "sized": sized, "style": style, "fault": fault}, f"map_async raised {type(e).__name__}: {e}")
+                ctx.violation({"items": items, "threads": threads, "sized": sized, "style": style, "worker_callable": shape, "fault": fault}, f"map_async raised {type(e).__name__}: {e}")
                 continue
             log = list(rec.log)
             results = list(res)
@@ -319,7 +381,7 @@ def run(ctx):
                     events.append([kind, idx[who]])
             import multiprocessing
             want_threads = multiprocessing.cpu_count() if kw.get("threads") is None else kw["threads"]
-            case = {"call": ci, "items": items, "threads": kw.get("threads", "default"), "sized": sized, "style": style, "events": len(events),
+            case = {"call": ci, "items": items, "threads": kw.get("threads", "default"), "sized": sized, "style": style, "worker_callable": shape, "events": len(events),
                     "producer_stalls": {str(k): round(v, 2) for k, v in stalls.items()},
                     "failing_calls_before": list(faults_so_far[-3:])}
             if fault:
@@ -348,6 +410,7 @@ def run(ctx):
         regen_cases = _regen_section(ctx, rng, rec, faults_so_far)
     finally:
         thread_pool.queue = real_queue_mod
+        thread_pool.threading = real_threading_mod
         sys.setswitchinterval(old_switch)
         threading.excepthook = old_hook
 
@@ -381,6 +444,7 @@ def run(ctx):
         ctx.count("threads_%s" % case["threads"])
         ctx.count("workers_used_%d" % min(busy_workers, 5))
         ctx.count("style_" + style)
+        ctx.count("worker_callable_" + case["worker_callable"])
         ctx.count("sized" if sized else "unsized")
         if case["producer_stalls"]:
             ctx.count("lazy_producer")
